@@ -1005,11 +1005,14 @@ func (fc *funcContext) translateBuiltin(name string, sig *types.Signature, args 
 			return fc.formatExpr("%e.$length", args[0])
 		case *types.Pointer:
 			return fc.formatExpr("(%e, %d)", args[0], argType.Elem().(*types.Array).Len())
+		case *types.Array:
+			// Length of an array is constant, unless the operand contains a function
+			// call or a channel receive, which still has to be evaluated.
+			return fc.formatExpr("(%e, %d)", args[0], argType.Len())
 		case *types.Map:
 			return fc.formatExpr("(%e ? %e.size : 0)", args[0], args[0])
 		case *types.Chan:
 			return fc.formatExpr("%e.$buffer.length", args[0])
-		// length of array is constant
 		default:
 			panic(fmt.Sprintf("Unhandled len type: %T\n", argType))
 		}
@@ -1019,7 +1022,10 @@ func (fc *funcContext) translateBuiltin(name string, sig *types.Signature, args 
 			return fc.formatExpr("%e.$capacity", args[0])
 		case *types.Pointer:
 			return fc.formatExpr("(%e, %d)", args[0], argType.Elem().(*types.Array).Len())
-		// capacity of array is constant
+		case *types.Array:
+			// Capacity of an array is constant, unless the operand contains a function
+			// call or a channel receive, which still has to be evaluated.
+			return fc.formatExpr("(%e, %d)", args[0], argType.Len())
 		default:
 			panic(fmt.Sprintf("Unhandled cap type: %T\n", argType))
 		}
